@@ -80,6 +80,18 @@ def _cp(self, skip, explain=False):
     return _orig_cp(self, skip, explain)
 
 
+_orig_ci = NSM.NetlistSimplifyMixin._check_ic
+
+
+def _ci(self, subset):
+    # the element _check_ic pops from its copy of the set (set copies are
+    # deterministic, so the same operations give the same element)
+    first = next(iter(subset.copy()))
+    LOG.append(['check_ic', sorted(str(a) for a in subset), str(first)])
+    return _orig_ci(self, subset)
+
+
+NSM.NetlistSimplifyMixin._check_ic = _ci
 NSM.NetlistSimplifyMixin._simplify_combine_series = _cs
 NSM.NetlistSimplifyMixin._simplify_combine_parallel = _cp
 NetlistMixin._find_combine_subsets = _fcs
